@@ -99,6 +99,9 @@ func (exec *Executor) executeItemOptUnwrapTarget(
 	found *valueList,
 	unwrap bool,
 ) (resultStatus, error) {
+	if verifOn {
+		defer verifStep(ctx, exec, node, value, found != nil, unwrap)()
+	}
 	// Check for interrupts.
 	select {
 	case <-ctx.Done():
